@@ -217,10 +217,12 @@ public:
       }
       else
       {
-         // switch items
+         // switch items.  Note that we take our reference to the new item before we give up our reference to the old one:
+         // the old item might be holding the only other reference to the new item (eg head = head()->_next), in which
+         // case releasing the old item first would destroy the new item before we got to reference it.
+         if ((item)&&(doRefCount)) item->IncrementRefCount();
          UnrefItem();
          _item.SetPointerAndBits(item, BooleansToBitChord((item!=NULL), doRefCount));
-         RefItem();
       }
    }
 
